@@ -37,18 +37,23 @@ def removedOptions (ty : ConsType) (nOpts : List Nat) (iTaken jChosen : Nat) : L
     let r := removedFrom ty (nOpts.getD i 0) i iTaken jChosen
     if r.isEmpty then none else some (i, r))
 
-/-- `get_constraint_pre_removed_options`. -/
-def preRemoved (ty : ConsType) (nOpts : List Nat) (allPermanent : Bool) : List (Nat × List Nat) :=
+/-- `get_constraint_pre_removed_options`; `permanent[i]` = choice `i` is permanent (initially active). -/
+def preRemovedP (ty : ConsType) (nOpts : List Nat) (permanent : List Bool) : List (Nat × List Nat) :=
   let m := nOpts.length
+  let nPerm := (permanent.filter id).length
   let nMax := nOpts.foldl max 0
-  if ty == .permutation && decide (nMax < m) then
+  if ty == .permutation && decide (nMax < nPerm) then
     (List.range m).map (fun i => (i, List.range (nOpts.getD i 0)))
-  else if ty == .unorderedNorepl && allPermanent then
+  else if ty == .unorderedNorepl && permanent.all id then
     (List.range m).map (fun i =>
       let n := nOpts.getD i 0
       let iEnd : Int := (n : Int) - ((m : Int) - ((i : Int) + 1))
       (i, (List.range n).filter (fun j => decide (j < i) || decide (iEnd ≤ (j : Int)))))
   else []
+
+/-- All choices permanent / none permanent. -/
+def preRemoved (ty : ConsType) (nOpts : List Nat) (allPermanent : Bool) : List (Nat × List Nat) :=
+  preRemovedP ty nOpts (List.replicate nOpts.length allPermanent)
 
 def chainB (r : Nat → Nat → Bool) : List Nat → Bool
   | [] => true
